@@ -241,6 +241,10 @@ def gen_kwargs(rng):
     )
 
 
+def pol_tweak(pol, cfg, rng):
+    pol['partial_show'] = rng.random() < 0.3
+
+
 def nontrivial(ctx):
     return 'inner-copy' in ctx.tags
 
@@ -253,7 +257,7 @@ def run_shard(seed, shard, of, tier, deadline):
     return hist.run_history_shard(
         PROP, seed, shard, of, tier, deadline, cases=CASES,
         gen_kwargs=gen_kwargs, make_monitors=make_monitors,
-        nontrivial=nontrivial)
+        nontrivial=nontrivial, pol_tweak=pol_tweak)
 
 
 def replay(payload):
